@@ -1776,7 +1776,10 @@ func (self *BinaryServerProtocol) commandHandleListLockCommand(_ *BinaryServerPr
 		return protocol.NewCallResultCommand(command, protocol.RESULT_ERROR, "DECODE_ERROR", nil), nil
 	}
 
-	db := self.slock.dbs[request.DbId]
+	var db *LockDB
+	if request.DbId < uint32(len(self.slock.dbs)) {
+		db = self.slock.dbs[request.DbId]
+	}
 	if db == nil {
 		return protocol.NewCallResultCommand(command, protocol.RESULT_UNKNOWN_DB, "UNKNOWN_DB_ERROR", nil), nil
 	}
@@ -1826,7 +1829,10 @@ func (self *BinaryServerProtocol) commandHandleListLockedCommand(_ *BinaryServer
 		return protocol.NewCallResultCommand(command, protocol.RESULT_ERROR, "DECODE_ERROR", nil), nil
 	}
 
-	db := self.slock.dbs[request.DbId]
+	var db *LockDB
+	if request.DbId < uint32(len(self.slock.dbs)) {
+		db = self.slock.dbs[request.DbId]
+	}
 	if db == nil {
 		return protocol.NewCallResultCommand(command, protocol.RESULT_UNKNOWN_DB, "UNKNOWN_DB_ERROR", nil), nil
 	}
@@ -1899,7 +1905,10 @@ func (self *BinaryServerProtocol) commandHandleListWaitCommand(_ *BinaryServerPr
 		return protocol.NewCallResultCommand(command, protocol.RESULT_ERROR, "DECODE_ERROR", nil), nil
 	}
 
-	db := self.slock.dbs[request.DbId]
+	var db *LockDB
+	if request.DbId < uint32(len(self.slock.dbs)) {
+		db = self.slock.dbs[request.DbId]
+	}
 	if db == nil {
 		return protocol.NewCallResultCommand(command, protocol.RESULT_UNKNOWN_DB, "UNKNOWN_DB_ERROR", nil), nil
 	}
